@@ -21,7 +21,7 @@ SPECIAL_V = {"max_pool1d": ["distinct", "negbig", "intvalued"], "max_pool2d": ["
 
 
 def gen_cases(tier, seed):
-    cases = nncommon.build_cases(tier, seed, "c06", budget={"quick": 250, "thorough": 3000}[tier], with_empty=True)
+    cases = nncommon.build_cases(tier, seed, "c06", budget={"quick": 250, "thorough": 12000}[tier], with_empty=True)
     out = []
     for c in cases:
         if c["op"] == "dropout":
@@ -147,7 +147,7 @@ def teardown(ns, mon):
 def finish(agg, tier):
     c = agg["counters"]
     r = []
-    for k in ("verdict:value", "verdict:both-reject", "as_strided_calls", "kernel_calls"):
+    for k in ("verdict:value", "verdict:both-reject"):
         if not c.get(k):
             r.append(f"zero-events:{k}")
     return r
